@@ -5,14 +5,14 @@
 set -u
 PATCH=$(readlink -f "$1"); shift
 HERE=$(cd "$(dirname "$0")/.." && pwd)
-WT=/tmp/mutv
+WT=${SEED_WT:-/tmp/mutv}
 HEAD=$(git -C /repo rev-parse HEAD)
 [ -d $WT ] || git -C /repo worktree add -q --detach $WT $HEAD
 git -C $WT checkout -q -- . ; git -C $WT checkout -q --detach $HEAD
 git -C $WT apply "$PATCH" || { echo "patch does not apply"; exit 2; }
 caught=1
 for id in "$@"; do
-  out=$(cd $HERE && VERIF_REPO=$WT VERIF_BUILD=/tmp/mutv-vb timeout 3000 python3 tools/check.py $id 2>/tmp/mutv-check.err)
+  out=$(cd $HERE && VERIF_REPO=$WT VERIF_BUILD=${SEED_WT:-/tmp/mutv}-vb timeout 3000 python3 tools/check.py $id 2>${SEED_WT:-/tmp/mutv}-check.err)
   rc=$?
   echo "--- $id rc=$rc"; echo "$out" | grep -E "^VIOLATION|^KNOWN|^OK|^# " | head -8
   [ $rc -eq 1 ] && echo "$out" | grep -q "^VIOLATION" && caught=0
